@@ -18,9 +18,9 @@ LEVEL_TEXT = 'All group operations on all tensors of all enumerated nodes; symme
 LEVEL_NOTE = 'Invariance is tested with the Cartesian rotations stored in crys.G (their correctness is C18).'
 
 TOL = 1e-9
-VM_QUICK = [('FCC', 0, 1), ('HCP', 0, 1), ('HONEY', 0, 1), ('OMEGA', 0, 1), ('RECTM', 0, 1), ('TET', 1, 1), ('SQUARE', 0, 2)]
+VM_QUICK = [('FCC', 0, 1), ('HCP', 0, 1), ('HONEY', 0, 1), ('OMEGA', 0, 1), ('RECTM', 0, 1), ('TET', 1, 1), ('SQUARE', 0, 2), ('OBLIQUE', 1, 1), ('MONO', 2, 1)]
 VM_THOROUGH = VM_QUICK + [('BCC', 0, 1), ('SC', 0, 1), ('DIAMOND', 0, 1), ('B2', 0, 1), ('ROMEGA', 0, 1), ('FCC', 0, 2), ('TRIA', 0, 1), ('NBO', 0, 1),
-                          ('ORTH', 2, 1), ('MONO', 2, 1), ('TRIC', 1, 1), ('RHOM', 1, 1), ('OBLIQUE', 1, 1), ('CRECT', 1, 1), ('L12', 0, 1), ('WURTZ2', 0, 1)]
+                          ('ORTH', 2, 1), ('TRIC', 2, 1), ('P1', 1, 1), ('RHOM', 1, 1), ('CRECT', 1, 1), ('L12', 0, 1), ('WURTZ2', 0, 1)]
 XL = [('ene', 20.0), ('ene', -20.0)]
 CHUNK = 30
 
